@@ -383,13 +383,16 @@ def run_shard(spec: Dict[str, Any]) -> Dict[str, Any]:
     # always present: sweep expressions made of nested commutative groups (sums of products, products of sums, chains inside
     # calls), each rewritten four times with operand order and association changed
     for k, expr in enumerate(["2.0 * t + s * 3.0", "(t + 1.0) * (2.0 + s)", "t * s * 2.0 + (s + t) * 0.5", "max(t + s, 0.5) * (s + 1.0)",
-                              "(t * 2.0 + 1.0) + (3.0 + s * t)"]):
+                              "(t * 2.0 + 1.0) + (3.0 + s * t)", "round(t * s, ndigits=int(1.0 + t + s))", "max(0.5, s + t) if t * s > 1.0 + s else s + t"]):
         cases.append({"nodes": [{"p": "FloatDataSource"},
                                 {"p": "FloatMultiplyOperation", "sweep": {"vars": {"t": {"kind": "values", "values": [1.0, 2.0]}, "s": {"kind": "values", "values": [0.5, 3.0]}},
                                                                            "params": {"factor": expr}, "mode": "combinatorial", "broadcast": False,
                                                                            "collection": "FloatDataCollection"}}],
                       "run_space": None, "null_parameters": False,
                       "rewrites": [{"seed": 1000 * k + j, "kinds": ["commute_expr"]} for j in range(4)]})
+    # always present: required context keys that are equal ignoring case (their reported order must not depend on the hash seed)
+    cases.append({"nodes": [{"p": "FloatDataSource"}] + [{"p": f"rename:{k}:dst_{i}"} for i, k in enumerate(["K1", "k1", "Out", "out", "Seq", "seq", "A", "a"])],
+                  "run_space": None, "rewrites": [], "null_parameters": False})
     # always present: a long (>= 32 values) integral sequence and its retyped twin, so that anything that memoises long
     # sequences by value is seen with both spellings in both orders
     for nvals in (32, 40):
